@@ -203,20 +203,15 @@ def h12a_pre(code, c0, c1, c2):
 
 
 def h12a_shards(tier):
-    out = []
-    # 2 writers (+ reader): the schedule integer is bounded by 3^steps; shards split its range
-    for nw, rd, top, parts in ((2, False, 2**10, 1), (2, True, 3**9, 4)):
-        step = top // parts
-        for k in range(parts):
-            out.append({"fine": False, "writers": nw, "reader": rd, "codes": (k * step, (k + 1) * step if k < parts - 1 else top),
-                        "_timeout": 1500, "_path_timeout": 120})
+    # the schedule integer has one digit per scheduling decision; unused high digits must be zero
+    out = [{"fine": False, "writers": 2, "reader": False, "codes": (0, 2**12), "_timeout": 900, "_path_timeout": 120}]
     if tier == "thorough":
-        top = 3**11
-        parts = 32
+        top = 3**14
+        parts = 27
         step = top // parts
         for k in range(parts):
             out.append({"fine": False, "writers": 3, "reader": False, "codes": (k * step, (k + 1) * step if k < parts - 1 else top),
-                        "_timeout": 3000, "_path_timeout": 120})
+                        "_timeout": 3600, "_path_timeout": 120})
     return out
 
 
@@ -257,9 +252,10 @@ def h12b_shards(tier):
 
 def h12c(dummy: bool) -> bool:
     """Every access to the shared writer/reader state lies lexically under the version lock (or in an *_unlocked helper)."""
-    bad = coro.shared_state_under_lock(dns.versioned.Zone,
-                                       ["reader", "writer", "_end_read", "_end_write", "_commit_version", "set_pruning_policy"],
-                                       "_version_lock", SHARED)
+    with concrete():
+        bad = coro.shared_state_under_lock(dns.versioned.Zone,
+                                           ["reader", "writer", "_end_read", "_end_write", "_commit_version", "set_pruning_policy"],
+                                           "_version_lock", SHARED)
     hit("checked")
     # Allowed: the admitted writer reads back its own transaction after the admission loop
     # (`self._write_txn._setup_version()` / `return self._write_txn`): no other thread can change the field
@@ -274,7 +270,7 @@ HARNESSES = [
                      "dns.versioned.Zone._commit_version", "dns.versioned.Zone._maybe_wakeup_one_waiter_unlocked",
                      "dns.versioned.Zone._commit_version_unlocked", "dns.versioned.Zone._end_write_unlocked",
                      "dns.zone.Transaction._end_transaction", "dns.transaction.Transaction._end"],
-            bound="2 writers (commit/rollback symbolic) without and with 1 reader, every interleaving at lock / event granularity (schedule = one symbolic integer, one digit per scheduling decision); thorough: 3 writers",
+            bound="2 writers (commit/rollback symbolic), every interleaving at lock / event granularity (schedule = one symbolic integer, one digit per scheduling decision); thorough: 3 writers; the reader is covered by the preemption-bounded H12b",
             stubs=["E10", "E6"], outside="> 3 writers; pre-emption inside a critical section (H12b); CPython thread internals", setup=setup),
     Harness("H12b", h12b, h12b_pre, h12b_shards, kind="finite: preemption-bounded schedules of the fine model",
             encodes=["dns.versioned.Zone.writer", "dns.versioned.Zone._end_write", "dns.versioned.Zone._commit_version",
